@@ -151,6 +151,16 @@ fn run_seq(cap: usize, steps: usize, rng: &mut Rng) -> (Vec<Finding>, Vec<String
         };
         trace.push(format!("rx{}.{} -> {:?}", i, if use_poll { "recv-poll" } else { "try_recv" }, got));
         let rx = &mut rxs[i];
+        if rx.closed && rx.unspecified {
+          // cloned after every sender handle was gone (empty mailbox): whether the library counts it as
+          // open or closed, there is nothing to receive and nobody left to send: Disconnected, not Empty
+          match &got {
+            Ok(_) => fail!("phantom-or-duplicate-message", "rx{} (cloned after all senders were gone) obtained {:?}", i, got),
+            Err(TryRecvError::Empty) => fail!("no-disconnected-after-senders-gone", "rx{} was cloned after every sender handle was closed/dropped but reports Empty instead of Disconnected", i),
+            Err(TryRecvError::Disconnected) => {}
+          }
+          continue;
+        }
         if rx.closed {
           // a closed handle rejects: any error is accepted, a value is not
           if got.is_ok() {
@@ -397,6 +407,9 @@ fn run_seq(cap: usize, steps: usize, rng: &mut Rng) -> (Vec<Finding>, Vec<String
 struct Conc {
   logs: Vec<Arc<Log>>,
   done: Vec<AtomicBool>,
+  /// findings of the late-clone check made inside receiver threads
+  late: Mutex<Vec<Finding>>,
+  late_clones: std::sync::atomic::AtomicU64,
 }
 
 #[derive(Clone, Debug)]
@@ -428,7 +441,8 @@ fn run_conc(scn_seed: u64, exec: u64, rng: &mut Rng, cfg: &StuckCfg, canary: &Ca
     rxs.push(rxs[0].clone());
   }
   let nthreads = n_tx + n_rx;
-  let sh = Arc::new(Conc { logs: (0..nthreads).map(|_| Arc::new(Log::default())).collect(), done: (0..nthreads).map(|_| AtomicBool::new(false)).collect() });
+  let sh = Arc::new(Conc { logs: (0..nthreads).map(|_| Arc::new(Log::default())).collect(), done: (0..nthreads).map(|_| AtomicBool::new(false)).collect(),
+    late: Mutex::new(vec![]), late_clones: std::sync::atomic::AtomicU64::new(0) });
   let start = Arc::new(Barrier::new(nthreads + 1));
   let subs_log: Arc<Mutex<Vec<Vec<SubEv>>>> = Arc::new(Mutex::new(vec![vec![]; n_rx]));
   let mut joins = vec![];
@@ -506,7 +520,16 @@ fn run_conc(scn_seed: u64, exec: u64, rng: &mut Rng, cfg: &StuckCfg, canary: &Ca
       let log = s2.logs[tid].clone();
       let mut cur: BTreeSet<K> = BTreeSet::new();
       let mut disconnected = false;
+      // at a random moment (possibly racing the last sender's drop) the receiver clones itself; the
+      // clone is only looked at after every sender thread has dropped its handle
+      let mut late: Option<fibre::spmc::topic::TopicReceiver<K, T>> = None;
+      let clone_at = rng.below(2 * msgs as u64 + 4);
+      let mut iters = 0u64;
       while !disconnected {
+        iters += 1;
+        if late.is_none() && iters >= clone_at {
+          late = Some(rx.clone());
+        }
         if dynamic && rng.chance(1, 6) {
           let topic = rng.below(4) as K;
           let on = !cur.contains(&topic);
@@ -549,6 +572,35 @@ fn run_conc(scn_seed: u64, exec: u64, rng: &mut Rng, cfg: &StuckCfg, canary: &Ca
         stuck::progress();
         if matches!(r, Err(Out::Empty) | Err(Out::Timeout)) {
           std::thread::yield_now();
+        }
+      }
+      if late.is_none() {
+        late = Some(rx.clone());
+      }
+      // `rx` observed Disconnected: every sender handle is gone (or going: wait for the sender threads)
+      let t0 = std::time::Instant::now();
+      while !(0..n_tx).all(|t| s2.done[t].load(Ordering::SeqCst)) && t0.elapsed() < Duration::from_secs(20) {
+        std::thread::sleep(Duration::from_micros(200));
+      }
+      if (0..n_tx).all(|t| s2.done[t].load(Ordering::SeqCst)) {
+        let lc = late.take().unwrap();
+        s2.late_clones.fetch_add(1, Ordering::SeqCst);
+        // buffered messages first, then Disconnected; Empty is wrong now that nobody can publish any more
+        let mut n = 0;
+        loop {
+          n += 1;
+          match lc.try_recv() {
+            Ok(_) if n < 1_000_000 => continue,
+            Ok(_) => break,
+            Err(TryRecvError::Disconnected) => break,
+            Err(TryRecvError::Empty) => {
+              s2.late.lock().unwrap().push(Finding {
+                rule: "no-disconnected-after-senders-gone".into(),
+                summary: format!("a receiver cloned from receiver {} while senders were publishing / leaving reports Empty after every sender handle was dropped and its mailbox is drained: it never observes Disconnected", ri),
+              });
+              break;
+            }
+          }
         }
       }
       chaos::leave();
@@ -600,6 +652,9 @@ fn run_conc(scn_seed: u64, exec: u64, rng: &mut Rng, cfg: &StuckCfg, canary: &Ca
   }
   for e in evs.iter().filter(|e| e.out == Out::Panicked) {
     f.push(Finding { rule: "panic".into(), summary: format!("library panicked in {}", e.form.name()) });
+  }
+  if !leaked {
+    f.extend(sh.late.lock().unwrap().drain(..));
   }
   // per receiver checks
   let sends: Vec<&Ev> = evs.iter().filter(|e| e.form.is_send() && e.out == Out::Ok).collect();
@@ -688,6 +743,7 @@ fn run_conc(scn_seed: u64, exec: u64, rng: &mut Rng, cfg: &StuckCfg, canary: &Ca
   f.retain(|x| seenr.insert(x.rule.clone()));
   trace.push(format!("messages checked at receivers: {}", checked));
   let stats = json!({"events": evs.len(), "published": sends.len(), "received_checked": checked,
+    "clones_made_while_senders_active_checked_after_they_left": sh.late_clones.load(Ordering::SeqCst),
     "subscription_changes": subs_log.iter().map(|v| v.len()).sum::<usize>(), "chaos": totals.to_json()});
   let mut h = vh_core::Fnv::default();
   let mut pts: Vec<(u64, u64)> = vec![];
@@ -723,7 +779,8 @@ fn main() {
   let only = args.get("only").map(|s| s.to_string());
   // C04 claims only the disconnect/close clauses; C08 claims everything
   let c04_rules = ["closed-sender-still-sends", "send-ok-without-receivers", "closed-receiver-still-receives", "premature-disconnected",
-    "disconnected-before-drained", "value-after-disconnected", "close-idempotence", "send-failed-with-live-receivers"];
+    "disconnected-before-drained", "value-after-disconnected", "close-idempotence", "send-failed-with-live-receivers",
+    "no-disconnected-after-senders-gone"];
   let mut exec = 0u64;
   while args.time_left() {
     exec += 1;
